@@ -1159,6 +1159,23 @@ class Interp:
             # dict.copy() returns a plain dict, also for subclasses that do
             # not override it
             return PyFunc(lambda a, k, n, o=o: dict(o))
+        if isinstance(o, dict) and name == "pop":
+            def dpop(a, k, n, o=o):
+                if a[0] in o:
+                    return o.pop(a[0])
+                if len(a) > 1:
+                    return a[1]
+                raise Raised(f"KeyError: {a[0]!r}")
+            return PyFunc(dpop)
+        if isinstance(o, dict) and name == "setdefault":
+            return PyFunc(lambda a, k, n, o=o: o.setdefault(
+                a[0], a[1] if len(a) > 1 else None))
+        if isinstance(o, dict) and name == "update":
+            def dupd(a, k, n, o=o):
+                for x in a:
+                    o.update(x)
+                o.update(k)
+            return PyFunc(dupd)
         if isinstance(o, list) and name in ("append", "extend"):
             return Builtin("list." + name, o)
         if isinstance(o, (list, tuple)) and name == "index":
@@ -1171,6 +1188,9 @@ class Interp:
         if isinstance(o, (list, tuple)) and name == "count":
             return PyFunc(lambda a, k, n, o=o: sum(1 for v in o
                                                    if _seq(v, a[0])))
+        if o is None:
+            raise Raised(f"AttributeError: 'NoneType' object has no "
+                         f"attribute '{name}'")
         raise Unsupported(f"attribute .{name} of {type(o).__name__}", node)
 
     def class_attr(self, cls: ClassInfo, name, obj, node):
